@@ -12,7 +12,7 @@ use std::io::Write;
 
 fn usage() -> ! {
     eprintln!("usage: bsx drive <scenario> <codec> <seed> <scale> <out.ndjson>");
-    eprintln!("       bsx rerun <codec> <ops.ndjson> <out.ndjson>");
+    eprintln!("       bsx rerun <codec> <ops.ndjson> <out.ndjson> [scenario]");
     eprintln!("       bsx replay <behaviours.ndjson|-> <violations.ndjson>");
     std::process::exit(2)
 }
@@ -33,6 +33,7 @@ fn main() {
             let codec = args[3].as_str();
             let seed: u64 = args[4].parse().unwrap();
             let scale: usize = args[5].parse().unwrap();
+            world::CANON.store(world::canon_scenario(scen), std::sync::atomic::Ordering::Relaxed);
             let lines = with_codec!(codec, A => scen::run::<A>(scen, seed, scale));
             let mut f = std::io::BufWriter::new(std::fs::File::create(&args[6]).unwrap());
             for l in &lines {
@@ -85,8 +86,12 @@ fn main() {
         }
         "rerun" => {
             // re-execute recorded calls (observations dropped) on the current tree
-            if args.len() != 5 {
+            if args.len() != 5 && args.len() != 6 {
                 usage();
+            }
+            // optional 6th argument: the scenario the calls were recorded in
+            if args.len() == 6 {
+                world::CANON.store(world::canon_scenario(&args[5]), std::sync::atomic::Ordering::Relaxed);
             }
             let codec = args[2].as_str();
             let text = std::fs::read_to_string(&args[3]).unwrap();
